@@ -3,7 +3,7 @@
    calcDescriptor<X>Length: Gen/Preds.v (re-translated from descriptor.go on every run);
    Spec: Spec/DescSpec.v (body sizes from the standards as plain integers, the TLV split as a relation on bytes). *)
 From Coq Require Import ZArith List Lia.
-Require Import Base.Bits Base.Iter Base.Wr Gen.Consts Gen.Types Gen.Preds Model.Desc Spec.DescSpec Spec.DvbSpec Proofs.DescProofs Proofs.DescRoundTrip2 Proofs.DescRoundTrip3 Proofs.DescRoundTrip4.
+Require Import Base.Bits Base.Iter Base.Wr Gen.Consts Gen.Types Gen.Preds Model.Desc Spec.DescSpec Spec.DvbSpec Proofs.DescProofs Proofs.DescRoundTrip2 Proofs.DescRoundTrip3 Proofs.DescRoundTrip4 Proofs.DescRoundTripAll.
 Import ListNotations.
 Open Scope Z_scope.
 
@@ -571,3 +571,88 @@ Proof.
   - exists 1, 0. repeat split; lia.
   - exists 2, 0. repeat split; lia.
 Qed.
+
+(* ================= (e, continued) loops mixing ALL tags =================
+   body_rt for the thirteen tags added above (C14_body_roundtrips has the other twelve classes), then the loop theorem
+   with the domain spelled out: wf_entry d d' = tag a byte, body at most 255 bytes, and either the body is empty and d'
+   is the bare header (S7) or typed_rt d d' — the inductive predicate in Proofs/DescRoundTripAll.v whose 25 constructors
+   are exactly the hypotheses of the 25 per-class round trips (23 typed tags, unknown, user-defined). *)
+Theorem C14_body_roundtrips2 :
+  (forall d v, Descriptor_Tag d = 106 -> Descriptor_AC3 d = Some v -> wf_ac3 v -> body_rt d (set_AC3 (desc_hdr 106 (size_ac3 v)) v)) /\
+  (forall d v, Descriptor_Tag d = 122 -> Descriptor_EnhancedAC3 d = Some v -> wf_enhanced_ac3 v ->
+     body_rt d (set_EnhancedAC3 (desc_hdr 122 (size_enhanced_ac3 v)) v)) /\
+  (forall d v, Descriptor_Tag d = 80 -> Descriptor_Component d = Some v -> wf_component v ->
+     body_rt d (set_Component (desc_hdr 80 (6 + zlen (DescriptorComponent_Text v))) v)) /\
+  (forall d v, Descriptor_Tag d = 84 -> Descriptor_Content d = Some v -> Forall wf_content_item (DescriptorContent_Items v) ->
+     body_rt d (set_Content (desc_hdr 84 (2 * zlen (DescriptorContent_Items v))) v)) /\
+  (forall d v, Descriptor_Tag d = 78 -> Descriptor_ExtendedEvent d = Some v -> wf_extended_event v ->
+     body_rt d (set_ExtendedEvent (desc_hdr 78 (size_extended_event v)) v)) /\
+  (forall d v, Descriptor_Tag d = 127 -> Descriptor_Extension d = Some v -> wf_extension v ->
+     body_rt d (set_Extension (desc_hdr 127 (size_extension v)) v)) /\
+  (forall d v, Descriptor_Tag d = 88 -> Descriptor_LocalTimeOffset d = Some v ->
+     Forall wf_local_time_offset_item (DescriptorLocalTimeOffset_Items v) ->
+     body_rt d (set_LocalTimeOffset (desc_hdr 88 (13 * zlen (DescriptorLocalTimeOffset_Items v))) v)) /\
+  (forall d v, Descriptor_Tag d = 85 -> Descriptor_ParentalRating d = Some v ->
+     Forall wf_parental_rating_item (DescriptorParentalRating_Items v) ->
+     body_rt d (set_ParentalRating (desc_hdr 85 (4 * zlen (DescriptorParentalRating_Items v))) v)) /\
+  (forall d v, Descriptor_Tag d = 77 -> Descriptor_ShortEvent d = Some v -> length (DescriptorShortEvent_Language v) = 3%nat ->
+     5 + zlen (DescriptorShortEvent_EventName v) + zlen (DescriptorShortEvent_Text v) < 256 ->
+     body_rt d (set_ShortEvent (desc_hdr 77 (5 + zlen (DescriptorShortEvent_EventName v) + zlen (DescriptorShortEvent_Text v))) v)) /\
+  (forall d v, Descriptor_Tag d = 89 -> Descriptor_Subtitling d = Some v -> Forall wf_subtitling_item (DescriptorSubtitling_Items v) ->
+     body_rt d (set_Subtitling (desc_hdr 89 (8 * zlen (DescriptorSubtitling_Items v))) v)) /\
+  (forall d v, Descriptor_Tag d = 86 -> Descriptor_Teletext d = Some v -> Forall wf_teletext_item (DescriptorTeletext_Items v) ->
+     body_rt d (set_Teletext (desc_hdr 86 (5 * zlen (DescriptorTeletext_Items v))) v)) /\
+  (forall d v, Descriptor_Tag d = 69 -> Descriptor_VBIData d = Some v -> Forall wf_vbi_service (DescriptorVBIData_Services v) ->
+     body_rt d (set_VBIData (desc_hdr 69 (size_vbi_data v)) v)) /\
+  (forall d v, Descriptor_Tag d = 70 -> Descriptor_VBITeletext d = Some v -> Forall wf_teletext_item (DescriptorTeletext_Items v) ->
+     body_rt d (set_VBITeletext (desc_hdr 70 (5 * zlen (DescriptorTeletext_Items v))) v)).
+Proof.
+  repeat split.
+  - exact brt_ac3. - exact brt_enhanced_ac3. - exact brt_component. - exact brt_content. - exact brt_extended_event.
+  - exact brt_extension. - exact brt_local_time_offset. - exact brt_parental_rating. - exact brt_short_event.
+  - exact brt_subtitling. - exact brt_teletext. - exact brt_vbi_data. - exact brt_vbi_teletext.
+Qed.
+Print Assumptions C14_body_roundtrips2.
+
+Theorem C14_loop_roundtrip_all_tags : forall ds ds' out rest,
+  enc_descriptors_with_length ds = Ok out -> items_bytes_ok out -> loop_size ds < 4096 ->
+  Forall2 wf_entry ds ds' ->
+  parse_descriptors (new_iter (bytes_of_items out ++ rest)) = Ok (ds', mk_iter (bytes_of_items out ++ rest) (2 + loop_size ds)).
+Proof. exact loop_roundtrip_all. Qed.
+Print Assumptions C14_loop_roundtrip_all_tags.
+
+(* every descriptor that comes back carries the tag written and the body size as its Length *)
+Theorem C14_loop_roundtrip_headers : forall d d', wf_entry d d' ->
+  Descriptor_Tag d' = Descriptor_Tag d /\ Descriptor_Length d' = desc_size d.
+Proof. exact wf_entry_header. Qed.
+Print Assumptions C14_loop_roundtrip_headers.
+
+(* a loop inside the domain: AC-3, teletext, an empty content descriptor (comes back as the bare header), VBI data,
+   local time offset, extended event; every struct Length is wrong *)
+Definition ex_all : list Descriptor :=
+  [ set_AC3 (desc_hdr 106 0) ex_ac3; set_Teletext (desc_hdr 86 3) ex_teletext; set_Content (desc_hdr 84 9) {| DescriptorContent_Items := [] |};
+    set_VBIData (desc_hdr 69 1) ex_vbi; set_LocalTimeOffset (desc_hdr 88 0) ex_lto; set_ExtendedEvent (desc_hdr 78 200) ex_extended_event ].
+Definition ex_all_parsed : list Descriptor :=
+  [ set_AC3 (desc_hdr 106 5) ex_ac3; set_Teletext (desc_hdr 86 10) ex_teletext; desc_hdr 84 0;
+    set_VBIData (desc_hdr 69 9) ex_vbi; set_LocalTimeOffset (desc_hdr 88 13) ex_lto; set_ExtendedEvent (desc_hdr 78 14) ex_extended_event ].
+Example C14_loop_all_tags_example : Forall2 wf_entry ex_all ex_all_parsed /\ loop_size ex_all = 63.
+Proof.
+  split; [|reflexivity].
+  repeat (apply Forall2_cons; [split; [cbv; intuition discriminate|]; split; [reflexivity|]|]); [| | | | | |apply Forall2_nil].
+  - right. split; [reflexivity|]. apply (trt_ac3 _ ex_ac3); [reflexivity|reflexivity|cbv; intuition discriminate].
+  - right. split; [reflexivity|]. apply (trt_teletext _ ex_teletext); [reflexivity|reflexivity|repeat constructor; cbv; intuition discriminate].
+  - left. split; reflexivity.
+  - right. split; [reflexivity|]. apply (trt_vbi_data _ ex_vbi); [reflexivity|reflexivity|repeat constructor; cbv; intuition discriminate].
+  - right. split; [reflexivity|]. apply (trt_local_time_offset _ ex_lto); [reflexivity|reflexivity|].
+    destruct C14_rt_local_time_offset_example as [H _]. exact H.
+  - right. split; [reflexivity|]. apply (trt_extended_event _ ex_extended_event); [reflexivity|reflexivity|cbv; intuition discriminate].
+Qed.
+
+(* observation (not in the domain): the teletext page byte holds two 4-bit digits; the parser computes tens*10+units
+   without checking that the digits are decimal, so the bytes 0x1A and 0x20 both read as page 20 and the byte 0xFA
+   reads as page 160, which the writer emits as 0x00 *)
+Example C14_teletext_hex_digits :
+  map (fun pb => res_map (fun r => map (fun d => option_map (fun t => map DescriptorTeletextItem_Page (DescriptorTeletext_Items t)) (Descriptor_Teletext d)) (fst r))
+                   (parse_descriptors (new_iter [240; 7; 86; 5; 102; 114; 97; 8; pb]))) [26; 32; 250]
+  = [Ok [Some [20]]; Ok [Some [20]]; Ok [Some [160]]].
+Proof. vm_compute. reflexivity. Qed.
